@@ -670,7 +670,7 @@ pub fn build_brancher(r: &(u8, Vec<RawSel>, bool)) -> BrSpec {
     match r.0 % 10 {
         0..=2 => BrSpec::Default,
         3..=6 => BrSpec::Indep(sels[0].clone()),
-        7 => BrSpec::Dynamic { parts: sels, interleave: r.2 },
+        7 => BrSpec::Dynamic { parts: sels, interleave: r.2, build: (r.0 / 10) % 4 },
         8 => BrSpec::Alternating { strategy: r.0 / 10, other: sels[0].clone() },
         _ => BrSpec::AutoCustom(sels[0].clone()),
     }
